@@ -135,8 +135,33 @@ def run(repo, rep, tier):
     rep.check('sanitise', '_is_ascii is false as soon as one character fails the filter', 'if not char_filter(i)' in t and 'return r' in t and 'r = True' in t, ia, '_is_ascii changed')
     outf = repo.func('ssh_audit', 'output')
     w = [n for n in walk_no_nested(outf) if isinstance(n, ast.Call) and unparse(n.func) == 'out.warn' and 'non-printable ASCII' in unparse(n)]
-    ok = len(w) == 1 and any(unparse(t) == 'not banner.valid_ascii' and p for t, p, k in path_condition(w[0]))
-    rep.check('sanitise', 'the non-conformance warning is shown iff the flag is false', ok, w[0] if w else outf, 'non-printable warning guard changed')
+    ok = len(w) == 1
+    if ok:
+        # the complete path condition, as a truth table over {banner present, flag false, any other atom}: shown <=> banner present and flag false
+        from sa.logic import eval_prop, text_atomizer
+        conds = [(t, p) for t, p, k in path_condition(w[0]) if k in ('if', 'guard')]
+        known = {'banner is not None': 'b', 'banner is None': '!b', 'not banner.valid_ascii': 'nv', 'banner.valid_ascii': '!nv', 'banner.valid_ascii is False': 'nv'}
+        others = [unparse(t) for t, p in conds if unparse(t) not in known]
+        table = dict((k, v.lstrip('!')) for k, v in known.items())
+        for i, o in enumerate(others):
+            table[o] = 'x%d' % i
+        import itertools as _it
+        badrow = None
+        names = ['b', 'nv'] + ['x%d' % i for i in range(len(others))]
+
+        def atom_value(text, val):
+            v = val[table[text]]
+            return (not v) if known.get(text, '').startswith('!') else v
+        for bits in _it.product([False, True], repeat=len(names)):
+            val = dict(zip(names, bits))
+            got = all(atom_value(unparse(t), val) == p for t, p in conds)
+            want = val['b'] and val['nv']
+            rep.evals()
+            if got != want and badrow is None:
+                badrow = (dict(zip(['banner present', 'flag false'] + others, bits)), got)
+        ok = badrow is None
+    rep.check('sanitise', 'the non-conformance warning is shown iff a banner was received and its validity flag is false', ok, w[0] if w else outf,
+              'the "banner contains non-printable ASCII" warning is %s' % (('%s when %s' % ('shown' if badrow[1] else 'not shown', badrow[0])) if w and not ok and badrow else 'missing or duplicated'))
     bl = [n for n in walk_no_nested(outf) if isinstance(n, ast.Assign) and unparse(n.targets[0]) == 'banner_line']
     rep.check('sanitise', 'the banner line prints the parsed banner', len(bl) == 1 and unparse(bl[0].value) == "'(gen) banner: {}'.format(banner)", bl[0] if bl else outf, 'banner line changed')
 
